@@ -16,6 +16,7 @@ async_send_cmd(); (b) a real file-sourced Gateway (ReadProtocol, no active gatew
 from __future__ import annotations
 
 import asyncio
+from datetime import timedelta as _td
 from typing import Any
 
 from . import air as airmod, harness, vloop
@@ -38,7 +39,7 @@ ASSUMPTIONS = [
     "signature/puzzle frames written by the transport at start-up are not commands (the write ledger is filtered by frame)",
     "'delivered to the application' = a handler registered with Gateway.add_msg_handler()",
 ]
-REQUIRED = {"configs": 10, "rx.expected_pass": 50, "rx.expected_drop": 50, "tx.expected_pass": 10, "tx.expected_refuse": 10, "devices.checked": 20}
+REQUIRED = {"configs": 10, "rx.expected_pass": 50, "rx.expected_drop": 50, "tx.expected_pass": 10, "tx.expected_refuse": 10, "devices.checked": 20, "scenario.live": 5, "scenario.restore": 3, "scenario.reconnect": 2, "restore.lines_held": 20}
 
 ALL, NON, HGI = "63:262142", "--:------", "18:000730"
 
@@ -93,6 +94,10 @@ def gen_config(rng, stack: str) -> dict[str, Any]:
         "listed": known,
         "blocked": blocked,
         "foreign": foreign,
+        # how the packets reach the gateway: live; from a saved packet cache at start-up; live after the dongle
+        # on the port was swapped for one with another id (the earlier id is then just a foreign 18: device)
+        "scenario": rng.choice(("live", "live", "restore", "reconnect")) if stack == "port" else rng.choice(("live", "live", "restore")),
+        "old_active": "18:133333",
     }
 
 
@@ -111,6 +116,8 @@ def classify(a: str, cfg: dict[str, Any]) -> str:
 def gen_packets(rng, cfg: dict[str, Any], n: int) -> list[tuple[str, str, str]]:
     """[(frame, src, dst)] decodable packets over the three address shapes."""
     ids = list({*cfg["listed"], *cfg["unlisted"], *cfg["blocked"], cfg["foreign"], "18:006402", "18:222222"})
+    if cfg.get("scenario") == "reconnect":
+        ids += [cfg["old_active"]] * 3
     out = []
     k = 0
     for _ in range(n * 3):
@@ -174,42 +181,83 @@ async def run_config(loop: vloop.VirtualLoop, ctx, cfg: dict[str, Any]) -> None:
 
                 from .boundary import serial_patched
 
-                port = air.add_port("18:006402")
+                scenario = cfg["scenario"]
+                cache = {}
+                if scenario == "restore":
+                    t0 = vloop.EPOCH.replace(microsecond=0) - _td(seconds=2)
+                    cache = {(t0 + _td(milliseconds=7 * i)).isoformat(timespec="microseconds"): f"045 {frame}" for i, (frame, _, _) in enumerate(ok_packets)}
+                port = air.add_port(cfg["old_active"] if scenario == "reconnect" else "18:006402")
                 with serial_patched():
                     gwy = Gateway(port.name, **kwargs)
                     gwy.add_msg_handler(lambda m: got.append(str(m._pkt)))
-                    await gwy.start()
+                    await gwy.start(cached_packets=cache) if cache else await gwy.start()
+                    if scenario == "reconnect":
+                        await asyncio.sleep(0.3)
+                        if gwy._protocol.hgi_id != cfg["old_active"]:
+                            ctx.inconclusive_because(f"reconnect scenario: first stick not recognised ({gwy._protocol.hgi_id})")
+                        await gwy.stop()
+                        port = air.swap_stick(port, "18:006402")
+                        await gwy.start()
+                        await asyncio.sleep(0.3)
+                        if gwy._protocol.hgi_id != "18:006402":
+                            ctx.inconclusive_because(f"reconnect scenario: second stick not recognised ({gwy._protocol.hgi_id})")
+                        ctx.count("reconnects")
                 gwy._vrf_port = port
-                for frame, _, _ in ok_packets:
-                    air.inject(frame, faultable=False)
-                    await asyncio.sleep(0.02)
+                if scenario != "restore":
+                    for frame, _, _ in ok_packets:
+                        air.inject(frame, faultable=False)
+                        await asyncio.sleep(0.02)
                 await asyncio.sleep(0.5)
             else:
+                scenario = cfg["scenario"]
                 t0 = vloop.EPOCH
                 lines = []
                 for i, (frame, _, _) in enumerate(ok_packets):
                     lines.append(((t0.replace(microsecond=0)).isoformat(timespec="microseconds")[:-6] + f"{i * 1000:06d}", f"045 {frame}"))
-                gwy = harness.file_gateway(lines, **kwargs)
-                gwy.add_msg_handler(lambda m: got.append(str(m._pkt)))
-                await asyncio.wait_for(gwy.start(), timeout=60)
+                if scenario == "restore":  # a file gateway started with a packet cache (and an empty log)
+                    gwy = harness.file_gateway([], **kwargs)
+                    gwy.add_msg_handler(lambda m: got.append(str(m._pkt)))
+                    await asyncio.wait_for(gwy.start(cached_packets=dict(lines)), timeout=60)
+                else:
+                    gwy = harness.file_gateway(lines, **kwargs)
+                    gwy.add_msg_handler(lambda m: got.append(str(m._pkt)))
+                    await asyncio.wait_for(gwy.start(), timeout=60)
             await vloop.drain(loop)
+            ctx.count(f"scenario.{scenario}")
+            if scenario == "restore":
+                # a restored packet is 'delivered' when the gateway took it into its state: what it holds is what
+                # it will report and save again (application handlers are not called during a restore)
+                held = [ln.split(" # ")[0].rstrip() for ln in gwy.get_state(include_expired=True)[1].values()]
+                ctx.count("restore.lines_held", len(held))
+                for frame, src, dst in ok_packets:
+                    if any(h.endswith(frame) for h in held):
+                        got.append(frame)
 
             ctx.ev()
             ctx.count("configs")
-            cfg_w = {k: cfg[k] for k in ("stack", "enforce", "known", "block", "active", "gw_mode")}
+            cfg_w = {k: cfg[k] for k in ("stack", "enforce", "known", "block", "active", "gw_mode", "scenario")}
             delivered = set(got)
+            restore_enforces = len([k for k, v in cfg["known_list"].items() if v.get("class") == "HGI"]) == 1
             for frame, src, dst in ok_packets:
                 want = ref_pass(src, dst, cfg, sending=False)
                 ctx.count("rx.expected_pass" if want else "rx.expected_drop")
                 ctx.seen(f"{cfg['stack']}|{bool(cfg['enforce'] and cfg['known'])}|{classify(src, cfg)}|{classify(dst, cfg)}|rx|{want}")
                 have = frame in delivered
-                if have and not want:
+                if have and not want and scenario == "restore" and not restore_enforces and src not in cfg["block"] and dst not in cfg["block"]:
+                    # recorded finding: enforcement is switched off for a restore unless the known_list names
+                    # exactly one explicit 'class: HGI' gateway (deliberate: the comment in _restore_cached_packets)
                     ctx.violate(
-                        f"C10|rx|delivered-though-filtered|src={classify(src, cfg)}|dst={classify(dst, cfg)}",
+                        "C10|restore|known-list-not-enforced|no-single-explicit-hgi",
+                        "with the known list enforced, a cached packet with a non-listed address is restored (and gives rise to a device) when the known_list does not name exactly one explicit HGI",
+                        {"config": cfg_w, "frame": frame},
+                    )
+                elif have and not want:
+                    ctx.violate(
+                        f"C10|{'restore' if scenario == 'restore' else 'rx'}|delivered-though-filtered|src={classify(src, cfg)}|dst={classify(dst, cfg)}",
                         "a packet with a block-listed (or, under enforcement, non-allowed) address was delivered to the application",
                         {"config": cfg_w, "frame": frame},
                     )
-                elif want and not have:
+                elif want and not have and scenario != "restore":  # (what a restore keeps also depends on verb and age)
                     ctx.violate(
                         f"C10|rx|dropped-though-allowed|src={classify(src, cfg)}|dst={classify(dst, cfg)}",
                         "a packet all of whose addresses are allowed was not delivered (filtering over-blocks)",
@@ -220,7 +268,9 @@ async def run_config(loop: vloop.VirtualLoop, ctx, cfg: dict[str, Any]) -> None:
             for dev_id in list(gwy.device_by_id):
                 ctx.count("devices.checked")
                 bad = dev_id in cfg["block"] or (enforce and dev_id not in cfg["known"] and dev_id != cfg["active"])
-                if bad:
+                if bad and scenario == "restore" and not restore_enforces and dev_id not in cfg["block"]:
+                    ctx.count("restore.devices_for_unlisted_ids(recorded finding)")
+                elif bad:
                     ctx.violate(
                         f"C10|device-created|{classify(dev_id, cfg)}",
                         "a device was created for a block-listed (or, under enforcement, non-allowed) id",
@@ -228,7 +278,7 @@ async def run_config(loop: vloop.VirtualLoop, ctx, cfg: dict[str, Any]) -> None:
                     )
             # sending (port stack only)
             if cfg["stack"] == "port":
-                dsts = list({*cfg["listed"][:2], *cfg["unlisted"][:1], *cfg["blocked"][:2], cfg["foreign"]})
+                dsts = list({*cfg["listed"][:2], *cfg["unlisted"][:1], *cfg["blocked"][:2], cfg["foreign"]}) + ([cfg["old_active"]] * 2 if scenario == "reconnect" else [])
                 srcs = [HGI, HGI, "18:006402"] + cfg["listed"][:1] + cfg["blocked"][:1] + cfg["unlisted"][:1]
                 for k in range(8 if ctx.quick else 14):
                     src, dst = rng.choice(srcs), rng.choice(dsts)
